@@ -23,7 +23,8 @@ from pyvc.interp import SObj, LoopSpec
 PROPERTY = "C13"
 property_meta(
     PROPERTY, level="other",
-    trusted_base=["A-PY", "A-NP-INDEX", "A-REAL (NaN is a distinguished token: only its placement is proved)", "A-PANDAS (DataFrame = dict of equal-length columns)", "C01 (reader slices are NumPy slices of the calibrated array)"],
+    trusted_base=["A-PY", "A-NP-INDEX", "A-REAL (NaN is a distinguished token: only its placement is proved)", "A-PANDAS (DataFrame = dict of equal-length columns; groupby(cluster).aggregate(count) on a frame sorted by cluster = one row per run of equal unit ids, count = run length: ASSUMED contract of aggregate_by_clusters in the running-index harness, its pre-conditions obliged)",
+                  "C01 (reader slices are NumPy slices of the calibrated array)", "_make_wfs_table under its own contract at the call site of extract_wfs_cbin (harness make_wfs_table)"],
     explanation="extract_wfs_array: loop invariant over the output stack: wfs[i,c,t] == traces[neigh[peak_i,c], sample_i - trough + t], the pad index reads the NaN row, all reads in bounds; "
                 "write_wfs_chunk (no preprocessing): the chunk-local offsets for chunk 0 and later chunks both address samples [sample-trough, sample-trough+length) of the recording and rows land at waveform_index. "
                 "Selection per unit, table/traces/channels/templates agreement, chunk and worker independence, loader: bounded stand-in on real files.")
